@@ -1,7 +1,7 @@
 //! One adapter per public entry point of the crate, all behind one object-safe trait.
 
 use crate::alloc::enter_crate;
-use crate::kids::{Child, Src, TryChild, UnitChild, UpFut, UpItem, UpTry};
+use crate::kids::{Child, PlainChild, Src, TryChild, UnitChild, UpFut, UpItem, UpTry};
 use crate::world::{ev, w, ErrTok, Ident, ObjKind, Tok};
 use futures_buffered::{
     join_all, try_join_all, BufferUnordered, BufferedOrdered, BufferedStreamExt, BufferedTryStreamExt,
@@ -445,6 +445,21 @@ impl Subject for SJoin {
     reloc!();
 }
 
+pub struct SJoinPlain(pub JoinAll<PlainChild>);
+impl Subject for SJoinPlain {
+    fn poll(&mut self, cx: &mut Context<'_>) -> Polled {
+        let _g = enter_crate();
+        match Pin::new(&mut self.0).poll(cx) {
+            Poll::Pending => Polled::Pending,
+            Poll::Ready(v) => Polled::Item(Yield::Vec(v)),
+        }
+    }
+    fn obs(&self) -> Obs {
+        Obs::default()
+    }
+    reloc!();
+}
+
 pub struct STryJoin(pub TryJoinAll<TryChild>);
 impl Subject for STryJoin {
     fn poll(&mut self, cx: &mut Context<'_>) -> Polled {
@@ -603,6 +618,14 @@ pub fn make(kind: Kind, ctor: Ctor, cap: usize, ids: &[u32], start: Option<usize
             let f: Box<dyn FnMut(u32) -> UnitChild> = Box::new(move |item| clo.call(item));
             let _g = enter_crate();
             Box::new(SForEach(up.for_each_concurrent(cap, f)))
+        }
+        Kind::JoinAll if w.plain_join.get() => {
+            for i in ids {
+                w.kids.borrow_mut()[*i as usize].plain = true;
+            }
+            let v: Vec<PlainChild> = ids.iter().map(|i| PlainChild { id: *i }).collect();
+            let _g = enter_crate();
+            Box::new(SJoinPlain(join_all(it(v, inexact))))
         }
         Kind::JoinAll => {
             let v: Vec<Child> = ids.iter().map(|i| Child::new(*i)).collect();
